@@ -22,7 +22,8 @@
 //! | write a temp file, rename it onto p    | CREATE t.., MOVED_FROM t, MOVED_TO p    | `Create(File) p` (`push_rename_event` re-targets the queue of a just-created file and emits no rename) |
 //! | remove file p                          | DELETE                                  | `Remove(File) p` |
 //! | remove folder d recursively            | DELETE children.., DELETE\|ISDIR d      | `Remove(Folder) d` (`push_remove_event` drops the queues of all paths below d; when the window closes in between the children's removes are delivered first) |
-//! | mkdir d                                | CREATE\|ISDIR                           | `Create(Folder) d` (ignored by `process_create_event`) |
+//! | mkdir d                                | CREATE\|ISDIR                           | `Create(Folder) d` |
+//! | mkdir d and files written into it at once (`cp -r`, `git checkout`) | CREATE\|ISDIR d only  | `Create(Folder) d` — the files are written before notify has added the inotify watch for d, and get no event |
 //! | rename file or folder s -> t (both under watched paths) | MOVED_FROM s, MOVED_TO t (same cookie) | `Modify(Name(Both)) [s, t]` (the raw `From`/`To`/`Both` are replaced by one connected rename) |
 //! | move file or folder p OUT of the watched paths | MOVED_FROM p                    | `Modify(Name(From)) p` |
 //! | move file or folder p IN from outside  | MOVED_TO p                              | `Modify(Name(To)) p` (no events for the files inside a moved-in folder) |
@@ -156,11 +157,15 @@ pub fn apply(t: &mut Tree, e: &Edit) {
 }
 
 /// THE TABLE.  `style`: 0 = the Linux row; 1 = alternative delivery (`Any` encoding for removals
-/// and renames; the children's removes delivered before the folder's).
+/// and renames; the children's removes delivered before the folder's; an overwrite done as
+/// write-temp-and-rename).
 pub fn events_of(t: &Tree, e: &Edit, style: u8) -> Vec<Ev> {
     match e {
         Edit::Write(p, _) => {
-            if is_file(t, p) {
+            if is_file(t, p) && style == 1 {
+                // saved through a temporary file renamed onto p (row 3 of the table)
+                vec![Ev::CreateFile(p.clone()), Ev::Access(p.clone())]
+            } else if is_file(t, p) {
                 vec![Ev::Access(p.clone()), Ev::Data(p.clone())]
             } else {
                 vec![Ev::CreateFile(p.clone()), Ev::Access(p.clone())]
